@@ -3,7 +3,8 @@
     The handler is handed the route tables in force after the update (for this merge-type the cache overlaid
     with the update: Model/Sys.v [handle_resp], tied to the code by the correspondence of the [u_map]s). *)
 From Xds Require Import Model.Base Model.Fqdn Model.Proto Model.Decode Model.Sys Model.Policy.
-From Xds Require Import Proofs.PolicyProofs.
+From Xds Require Import Model.DecodeCheck Model.Pick Model.Route Model.Mw Model.SysCheck Model.PolicyCheck.
+From Xds Require Import Proofs.PolicyProofs Proofs.PolicySysProofs.
 Open Scope string_scope.
 
 (** After a handler run on the tables [up] the installed keys are EXACTLY the keys derived from those tables:
@@ -47,3 +48,11 @@ Theorem C17_policy_of_route : forall r,
                             end.
 Proof. exact (fun r => conj eq_refl (conj eq_refl (conj eq_refl eq_refl))). Qed.
 Print Assumptions C17_policy_of_route.
+
+(** END TO END, over every history of the manager + client + registered consumers (no eviction sweeps): the installed
+    keys are exactly the keys of the route tables CURRENTLY cached (the fold of the accepted RDS responses): a table
+    omitted from a partial push is still cached and keeps its policies, a cluster no longer referenced loses them. *)
+Theorem C17_tracks_the_cache : forall c o h rs, forallb pop_ok h = true -> p_rt (snd (jrun c o h)) = Some rs ->
+  rt_tracks rs (tget TRc (s_cache (fst (jrun c o h)))).
+Proof. exact retry_tracks_cache. Qed.
+Print Assumptions C17_tracks_the_cache.
